@@ -71,16 +71,20 @@ def mc_inductive(run, tier):
 
 
 def mc_blockdep(run):
+    lattice = None
     for cfg, want in (("BlockDep_MC.cfg", "ok"), ("BlockDep_D5.cfg", "invariant"), ("BlockDep_W3.cfg", "invariant"),
                       ("BlockDep_W0.cfg", "invariant")):
         res = tlc.run("BlockDep", cfg, workers=16, timeout=900)
         if res["status"] != want:
             raise MachineryError("BlockDep %s: expected %s, got %s\n%s" % (cfg, want, res["status"], res["output"][-2000:]))
         run.add_mc("BlockDep/" + cfg, res)
+        if cfg == "BlockDep_MC.cfg":
+            lattice = res
+    return lattice
 
 
 def api_streams(run, nlists, sd, accels):
-    res, finals = tlc.simulate_final_states("OpSeq", "OpSeq.cfg", nlists, 133, sd + 11)
+    res, finals = tlc.simulate_final_states("OpSeq", "OpSeq.cfg", nlists, 139, sd + 11)
     run.add_mc("OpSeq(simulate)", res)
     out = []
     for k, st in enumerate(finals):
@@ -104,6 +108,45 @@ def api_streams(run, nlists, sd, accels):
                     run.cov.setdefault("api_rejections", []).append("reuse %s: %s" % (type(e).__name__, str(e)[:120]))
                     continue
                 out.append({"src": "api", "accel": accel, "abstract": recs2, "descs": descs2, "words": words2, "reused": True})
+    return out
+
+
+def blockdep_pairs(run, res, tier, sd):
+    """S2C for the block dependency: the parameter lattice TLC enumerated for BlockDep.tla (CASE lines of the MC run), crossed
+    with an independent horizontal stride, realised as producer / consumer pairs of real operations through the public
+    generator; the emitted BLOCKDEP is judged like every other stream (NpuExecTrace: BlockDepSafe)."""
+    import random
+    import re
+    cases = []
+    for m in re.finditer(r'<<\s*"CASE"((?:,\s*-?\d+){9})\s*>>', res["output"]):
+        v = [int(x) for x in m.group(1).replace(",", " ").split()]
+        cases.append(dict(zip(("H", "pb", "k", "s", "pt", "pr", "cb", "idb", "uh"), v)))
+    cases = [q for q in cases if q["idb"] == 1 and q["uh"] == 1]     # depth slicing and the micro-block are properties of the realisation
+    if len(cases) < 500:
+        raise MachineryError("BlockDep MC printed only %d CASE lines" % len(cases))
+    rng = random.Random(sd + 77)
+    rng.shuffle(cases)
+    if tier == "quick":
+        cases = cases[:420]
+    out, refused = [], 0
+    for i, q in enumerate(cases):
+        for sx in (1, 2, 3):
+            if tier == "quick" and sx != 1 + (i + q["s"]) % 3 and sx == q["s"]:
+                continue            # quick: prefer the asymmetric stride pairs
+            for accel in ("ethos-u55-128", "ethos-u65-256"):
+                descs = opseq.blockdep_pair(q, sx, accel)
+                if descs is None:
+                    continue
+                try:
+                    words, _ = apiops.generate(descs, accel)
+                except Exception as e:
+                    refused += 1
+                    run.cov.setdefault("api_rejections", []).append("blockdep pair %s: %s" % (type(e).__name__, str(e)[:120]))
+                    continue
+                out.append({"src": "api", "accel": accel, "abstract": [dict(q, sx=sx, lattice="BlockDep")], "descs": descs, "words": words})
+    if len(out) < 200:
+        raise MachineryError("only %d BlockDep lattice points could be realised (%d refused by the generator)" % (len(out), refused))
+    run.cov["blockdep_lattice"] = {"cases": len(cases), "streams": len(out), "refused_by_generator": refused}
     return out
 
 
@@ -162,11 +205,12 @@ def main(tier):
     run = Run("C04", tier)
     sd = seed()
     mc(run, tier)
-    mc_blockdep(run)
+    lattice = mc_blockdep(run)
     mc_inductive(run, tier)
     nlists = 600 if tier == "quick" else 6000
     accels = ["ethos-u55-64", "ethos-u65-512"] if tier == "quick" else ACCELS
     items = api_streams(run, nlists, sd, accels)
+    items += blockdep_pairs(run, lattice, tier, sd)
     items += corpus_streams(run, 40 if tier == "quick" else 600, sd)
     batch = 1500
     tid = 0
